@@ -960,6 +960,8 @@ class _Frame:
         a = e.attr
         if isinstance(base, TorchMarker):
             full = f"{base.name}.{a}"
+            if full == "math.e":
+                return self.sp.E
             if full == "math.pi":
                 return self.sp.pi
             if full == "math.inf" or full == "torch.inf":
